@@ -508,9 +508,9 @@ def _eig_based_svd(A, need_U: bool = True, need_Vd: bool = True, inner_labels=[N
         Vd = None
         # use the smaller of the two square matrices -- they have the same eigenvalues
         if A.shape[1] >= A.shape[0]:
-            A2 = npc.tensordot(A, A.conj(), [1, 0])
+            A2 = npc.tensordot(A, A.conj(), [1, 1])  # A @ A.hc
         else:
-            A2 = npc.tensordot(A.conj(), A, [1, 0])
+            A2 = npc.tensordot(A.conj(), A, [0, 0])  # A.hc @ A
         L = npc.eigvalsh(A2)
         S = np.sqrt(np.abs(L))  # abs to avoid `nan` due to accidentally negative values close to zero
 
